@@ -63,6 +63,24 @@ f = func(n) { if n == 0 { return t.boom(n) }; return f(n - 1) + 1 }
 try { f(3) } catch err { r = append(r, sprintf("%+v", err)) }
 return r
 """,
+# error values of a builtin module (alone and in every container kind) are private per VM: throwing
+# them records the throw position in the VM's own copy
+b"""global(inp, acc)
+e := import("emod")
+r := []
+try { throw e.rerr } catch x { r = append(r, sprintf("%+v", x)) }
+f := func(v) { throw v }
+try { f(e.box.rerr) } catch x { r = append(r, sprintf("%+v", x)) }
+try { throw e.box.arr[0] } catch x { r = append(r, sprintf("%+v", x)) }
+try { throw e.sm.rerr } catch x { r = append(r, sprintf("%+v", x)) }
+try { throw e.err } catch x { r = append(r, sprintf("%+v", x), string(x)) }
+try { f(e.box.arr[1]) } catch x { r = append(r, sprintf("%+v", x)) }
+try { throw e.rerr } catch x { r = append(r, sprintf("%+v", x)) }
+e.err.Message = "changed"
+r = append(r, string(e.err), string(e.err.New("n")))
+acc = append(acc, len(r))
+if len(acc) > 0 { throw e.box.rerr }
+""",
 # callbacks through pooled child VMs
 b"""global(inp, acc)
 s := import("strings")
